@@ -246,6 +246,16 @@ func avcDeviations() []dev {
 		sl.AdaptiveMarking, sl.MMCO = true, [][3]uint{{1, 4, 0}, {2, 3, 0}, {3, 1, 2}, {4, 5, 0}, {5, 0, 0}, {6, 2, 0}}
 		sl.CabacInitIDC = 2
 	})
+	// each memory management control operation on its own (a mis-read of one operation shifts everything after it),
+	// with values whose Exp-Golomb code lengths differ from each other
+	// (the values are themselves operation codes or 0, so that a value mistaken for an operation changes the parse)
+	for _, op := range [][3]uint{{1, 2, 0}, {2, 1, 0}, {3, 1, 2}, {3, 4, 0}, {4, 6, 0}, {5, 0, 0}, {6, 3, 0}} {
+		op := op
+		add(fmt.Sprintf("slice.P+mmco%d(%d,%d) only", op[0], op[1], op[2]), func(_ *h264syn.SPS, _ *h264syn.PPS, sl *h264syn.Slice) {
+			sl.NalType, sl.SliceType = 1, 5
+			sl.AdaptiveMarking, sl.MMCO = true, [][3]uint{op}
+		})
+	}
 	add("slice.B+override+modification l1", func(_ *h264syn.SPS, _ *h264syn.PPS, sl *h264syn.Slice) {
 		sl.NalType, sl.SliceType, sl.DirectSpatial, sl.Override, sl.NumRefL0M1, sl.NumRefL1M1 = 1, 6, true, true, 1, 3
 		sl.ModL1Flag, sl.ModL1 = true, [][2]uint{{1, 2}}
